@@ -17,6 +17,8 @@ Numerical support / falsifier (on the implementation, independent oracles):
     is homogeneous of degree 1 in Q, so a zero or mis-scaled Qd for a tiny Q is a violation);
   * composition over random partitions of dt into 1..8 sub-steps (transitions multiply, noise
     accumulates through the later transitions, covariance propagation independent of the partition);
+  * calls in a row on the SAME F and Q buffers updated in place in between (scaled, negated, zeroed, Q *= 4,
+    interleaved with another dt), same dt: the result depends only on the current argument values;
   * inputs unmodified; integer-typed F (int64) and integer dt with a fractional Q give the float result;
   * the anchor filters._compute_error_propagation_matrices (assembly of the joint INS + sensor dynamics, noise
     input and intensities, and the call): for random EstimationModel pairs (every enable mask, bias walk on
